@@ -364,7 +364,7 @@ func compareModel(res []result, o *common.Options, rep *common.Report) error {
 		if n != len(fromOrigin) {
 			diverge("number of responses delivered to the client", len(fromOrigin), n)
 		}
-		if want502 != got502 {
+		if want502 != got502 && c.OriginCut < 0 && c.ClientCut < 0 && c.OriginCloseAfter < 0 { // a response cut by the origin may or may not parse; what the client then sees is net/http's
 			diverge("502 after a malformed response", got502, want502)
 		}
 	}
